@@ -6,29 +6,14 @@ From Coq Require String.
 Import String.StringSyntax.
 Open Scope nat_scope.
 
-(* the exclusion for constant values: a path constant whose first segment is true / false (the parser reads it as a path
-   only when a non-ASCII letter follows the word) *)
-Fixpoint cok_const (v : cconst) : bool :=
-  match v with
-  | CCPath p => negb (bytes_in (cp_head p) [txt "true"; txt "false"])
-  | CCList _ els => cok_clist els
-  | CCMap _ els => cok_cmapl els
-  | _ => true
-  end
-with cok_clist (l : clist) : bool :=
-  match l with
-  | CLNil => true
-  | CLCons v b s rest => cok_const v && cok_clist rest
-  end
-with cok_cmapl (l : cmapl) : bool :=
-  match l with
-  | CMNil => true
-  | CMCons key b1 b2 v b3 s rest =>
-    cok_const key && cok_const v && cok_cmapl rest
-  end.
-
+(* what is known of a value c read with the rest r: it is well-formed if r begins with an ASCII byte (a path constant
+   whose first word is true / false can only be read before a non-ASCII letter), r does not continue it, and its own text
+   begins with an ASCII byte *)
 Definition constP (c : cconst) (r : list byte) : Prop :=
-  ((cok_const c = true -> wf_const c = true) /\ pr_const c r <> []) /\ cont_ok c r = true.
+  (((hd_ascii r = true -> wf_const c = true) /\ pr_const c r <> []) /\ cont_ok c r = true) /\ hd_ascii (pr_const c r) = true.
+
+Lemma sep_ascii s R : hd_ascii R = true -> hd_ascii (pr_sep s R) = true.
+Proof. destruct s as [|[|] bl]; cbn [pr_sep sep_byte]; auto. Qed.
 
 (* the glue condition of an element of a list / a map, from what is known about the text that followed the element *)
 Lemma glue_of_cont v b s nxt X : lstopk X = true -> cont_ok v (pr_blank b (pr_sep s (nxt ++ X))) = true -> glue_ok v b s nxt = true.
@@ -61,20 +46,20 @@ Proof.
   destruct (pr_lel e (b :: l)); [cbn in *; lia|discriminate].
 Qed.
 
-Lemma chain_clist es k : k <> [] -> lstopk k = true -> chain pr_lel lelQ es k -> hdnil es ->
-  prl pr_lel es k = pr_clist (to_clist es) k /\ (cok_clist (to_clist es) = true -> wf_clist (to_clist es) = true).
+Lemma chain_clist es k : k <> [] -> lstopk k = true -> hd_ascii k = true -> chain pr_lel lelQ es k -> hdnil es ->
+  prl pr_lel es k = pr_clist (to_clist es) k /\ wf_clist (to_clist es) = true /\ hd_ascii (prl pr_lel es k) = true.
 Proof.
-  intros Hk Hlk. induction es as [|[[[bl v] b] s] es IH]; cbn [chain prl fold_right to_clist pr_clist hdnil]; intros Hc Hh.
-  - split; [reflexivity|reflexivity].
-  - subst bl. destruct Hc as [[[[Hw Hnn] Hct] [_ [Kb [Hs [Hn _]]]]] Hc]. fold (prl pr_lel es k) in *.
+  intros Hk Hlk Hak. induction es as [|[[[bl v] b] s] es IH]; cbn [chain prl fold_right to_clist pr_clist hdnil]; intros Hc Hh.
+  - split; [reflexivity|split; [reflexivity|exact Hak]].
+  - subst bl. destruct Hc as [[[[[Hw Hnn] Hct] Hav] [_ [Kb [Hs [Hn _]]]]] Hc]. fold (prl pr_lel es k) in *.
     assert (Hh' : hdnil es).
     { destruct es as [|[[[bl' v'] b'] s'] es']; [exact I|]. cbn [chain] in Hc. destruct Hc as [[_ [_ [_ [_ [_ Hx]]]]] _].
       apply Hx. exact Hn. }
-    destruct (IH Hc Hh') as [E Wr]. pose proof (prl_lel_nonnil es k Hk) as Rn. rewrite E in *. cbn [pr_blank]. split; [reflexivity|].
-    cbn [cok_clist wf_clist]. intros Hok. bsplit Hok.
-    rewrite (Hw ltac:(assumption)), (blank_ok_nonnil _ _ Kb (pr_sep_nonnil s _ Rn)).
+    destruct (IH Hc Hh') as [E [Wr Ar]]. pose proof (prl_lel_nonnil es k Hk) as Rn. rewrite E in *. cbn [pr_blank]. split; [reflexivity|].
+    split; [|exact Hav]. cbn [wf_clist].
+    rewrite (Hw (blank_ok_ascii _ _ Kb (sep_ascii s _ Ar))), (blank_ok_nonnil _ _ Kb (pr_sep_nonnil s _ Rn)).
     rewrite (wf_sep_of s _ Hs Rn). cbn [andb].
-    rewrite (pr_clist_app (to_clist es) k) in Hct. rewrite (glue_of_cont v b s _ k Hlk Hct). cbn [andb]. now apply Wr.
+    rewrite (pr_clist_app (to_clist es) k) in Hct. rewrite (glue_of_cont v b s _ k Hlk Hct). cbn [andb]. exact Wr.
 Qed.
 
 (* map elements:  [blank] key [blank] : [blank] value [blank] [separator] *)
@@ -105,21 +90,23 @@ Proof.
   destruct (pr_mel e (b :: l)); [cbn in *; lia|discriminate].
 Qed.
 
-Lemma chain_cmapl es k : k <> [] -> lstopk k = true -> chain pr_mel melQ es k -> hdnilm es ->
-  prl pr_mel es k = pr_cmapl (to_cmapl es) k /\ (cok_cmapl (to_cmapl es) = true -> wf_cmapl (to_cmapl es) = true).
+Lemma chain_cmapl es k : k <> [] -> lstopk k = true -> hd_ascii k = true -> chain pr_mel melQ es k -> hdnilm es ->
+  prl pr_mel es k = pr_cmapl (to_cmapl es) k /\ wf_cmapl (to_cmapl es) = true /\ hd_ascii (prl pr_mel es k) = true.
 Proof.
-  intros Hk Hlk. induction es as [|[[[[[[bl key] b1] b2] v] b3] s] es IH]; cbn [chain prl fold_right to_cmapl pr_cmapl hdnilm]; intros Hc Hh.
-  - split; reflexivity.
-  - subst bl. destruct Hc as [[[[Hwk _] _] [_ [[[Hwv Hnv] Hct] [W1 [K2 [K3 [Hs [Hn _]]]]]]]] Hc]. fold (prl pr_mel es k) in *.
+  intros Hk Hlk Hak. induction es as [|[[[[[[bl key] b1] b2] v] b3] s] es IH]; cbn [chain prl fold_right to_cmapl pr_cmapl hdnilm]; intros Hc Hh.
+  - split; [reflexivity|split; [reflexivity|exact Hak]].
+  - subst bl. destruct Hc as [[[[[Hwk _] _] Hak0] [_ [[[[Hwv Hnv] Hct] _] [W1 [K2 [K3 [Hs [Hn _]]]]]]]] Hc]. fold (prl pr_mel es k) in *.
     assert (Hh' : hdnilm es).
     { destruct es as [|[[[[[[bl' k'] b1'] b2'] v'] b3'] s'] es']; [exact I|]. cbn [chain] in Hc.
       destruct Hc as [[_ [_ [_ [_ [_ [_ [_ [_ Hx]]]]]]]] _]. apply Hx. exact Hn. }
-    destruct (IH Hc Hh') as [E Wr]. pose proof (prl_mel_nonnil es k Hk) as Rn. rewrite E in *. cbn [pr_blank]. split; [reflexivity|].
-    cbn [cok_cmapl wf_cmapl]. intros Hok. bsplit Hok.
-    rewrite (Hwk ltac:(assumption)), W1, (blank_ok_nonnil _ _ K2 Hnv), (Hwv ltac:(assumption)).
+    destruct (IH Hc Hh') as [E [Wr Ar]]. pose proof (prl_mel_nonnil es k Hk) as Rn. rewrite E in *. cbn [pr_blank]. split; [reflexivity|].
+    split; [|exact Hak0]. cbn [wf_cmapl].
+    assert (A1 : hd_ascii (pr_blank b1 (txt ":" ++ pr_blank b2 (pr_const v (pr_blank b3 (pr_sep s (pr_cmapl (to_cmapl es) k)))))) = true).
+    { unfold hd_ascii. apply blank_then; [exact W1|exact bs_ascii|reflexivity]. }
+    rewrite (Hwk A1), W1, (blank_ok_nonnil _ _ K2 Hnv), (Hwv (blank_ok_ascii _ _ K3 (sep_ascii s _ Ar))).
     rewrite (blank_ok_nonnil _ _ K3 (pr_sep_nonnil s _ Rn)).
     rewrite (wf_sep_of s _ Hs Rn). cbn [andb].
-    rewrite (pr_cmapl_app (to_cmapl es) k) in Hct. rewrite (glue_of_cont v b3 s _ k Hlk Hct). cbn [andb]. now apply Wr.
+    rewrite (pr_cmapl_app (to_cmapl es) k) in Hct. rewrite (glue_of_cont v b3 s _ k Hlk Hct). cbn [andb]. exact Wr.
 Qed.
 
 Section Const.
@@ -165,9 +152,9 @@ Proof.
   destruct (oblank_inv _ _ _ _ E1) as [bc [-> [Kc [Nc Hnone]]]].
   change (sym_clist_close ++ r) with (x5d :: r) in *.
   destruct es as [|[[[bl0 v0] b0] s0] es].
-  - cbn [prl fold_right map]. exists (CCList bc CLNil). unfold constP. cbn [pr_const pr_clist erase_const erase_clist cok_const wf_const wf_clist].
+  - cbn [prl fold_right map]. exists (CCList bc CLNil). unfold constP. cbn [pr_const pr_clist erase_const erase_clist wf_const wf_clist].
     change sym_clist_open with (txt "["). change (txt "]" ++ r) with (x5d :: r). split; [reflexivity|]. split; [reflexivity|].
-    split; [split; [|discriminate]|reflexivity].
+    split; [split; [split; [|discriminate]|reflexivity]|reflexivity].
     intros _. rewrite (blank_ok_nonnil _ _ Kc) by discriminate. reflexivity.
   - (* the closing blank slot is empty: the last element has read every blank *)
     assert (Ebc : bc = []).
@@ -179,14 +166,14 @@ Proof.
       destruct Kc as [Kc|[Kc _]]; [|discriminate]. pose proof (noblank_pr_blank (at0 :: bc) (x5d :: r) Kc eq_refl Hn). discriminate. }
     subst bc. cbn [pr_blank] in *.
     cbn [chain] in Hc. destruct Hc as [Hq Hc]. pose proof (set_bl_nil _ _ Hq) as Hq0. cbn beta iota in Hq0.
-    destruct (chain_clist (([], v0, b0, s0) :: es) (x5d :: r)) as [E Wl]; [discriminate|reflexivity|cbn [chain]; split; [exact Hq0|exact Hc]|reflexivity|].
+    destruct (chain_clist (([], v0, b0, s0) :: es) (x5d :: r)) as [E [Wl _]]; [discriminate|reflexivity|reflexivity|cbn [chain]; split; [exact Hq0|exact Hc]|reflexivity|].
     cbn [prl fold_right pr_lel pr_blank to_clist pr_clist] in E. cbn [prl fold_right pr_lel].
     exists (CCList bl0 (to_clist ((bl0, v0, b0, s0) :: es))). unfold constP.
-    cbn [pr_const erase_const cok_const wf_const to_clist pr_clist]. change sym_clist_open with (txt "["). change (txt "]" ++ r) with (x5d :: r).
-    split; [f_equal; f_equal; exact E|]. split; [|split; [split; [|discriminate]|reflexivity]].
+    cbn [pr_const erase_const wf_const to_clist pr_clist]. change sym_clist_open with (txt "["). change (txt "]" ++ r) with (x5d :: r).
+    split; [f_equal; f_equal; exact E|]. split; [|split; [split; [split; [|discriminate]|reflexivity]|reflexivity]].
     + f_equal. clear. cbn [map erase_clist fst snd]. f_equal.
       induction es as [|[[[? ?] ?] ?] es IH]; cbn [map to_clist erase_clist fst snd]; [reflexivity|]. now rewrite IH.
-    + intros Hok. cbn [to_clist] in Wl. rewrite (Wl Hok). destruct Hq as [[[_ Hnn] _] [Kl _]]. rewrite (blank_ok_nonnil _ _ Kl Hnn). reflexivity.
+    + intros _. cbn [to_clist] in Wl. rewrite Wl. destruct Hq as [[[[_ Hnn] _] _] [Kl _]]. rewrite (blank_ok_nonnil _ _ Kl Hnn). reflexivity.
 Qed.
 
 Lemma set_bl_nil_m (e : mel) r : melQ e r -> match e with (bl, key, b1, b2, v, b3, s) => melQ ([], key, b1, b2, v, b3, s) r end.
@@ -203,9 +190,9 @@ Proof.
   destruct (oblank_inv _ _ _ _ E1) as [bc [-> [Kc [Nc Hnone]]]].
   change (sym_cmap_close ++ r) with (x7d :: r) in *.
   destruct es as [|[[[[[[bl0 k0] b10] b20] v0] b30] s0] es].
-  - cbn [prl fold_right map]. exists (CCMap bc CMNil). unfold constP. cbn [pr_const pr_cmapl erase_const erase_cmapl cok_const wf_const wf_cmapl].
+  - cbn [prl fold_right map]. exists (CCMap bc CMNil). unfold constP. cbn [pr_const pr_cmapl erase_const erase_cmapl wf_const wf_cmapl].
     change sym_cmap_open with (txt "{"). change (txt "}" ++ r) with (x7d :: r). split; [reflexivity|]. split; [reflexivity|].
-    split; [split; [|discriminate]|reflexivity].
+    split; [split; [split; [|discriminate]|reflexivity]|reflexivity].
     intros _. rewrite (blank_ok_nonnil _ _ Kc) by discriminate. reflexivity.
   - assert (Ebc : bc = []).
     { assert (Hn : noblank (pr_blank bc (x7d :: r))).
@@ -217,14 +204,14 @@ Proof.
       destruct Kc as [Kc|[Kc _]]; [|discriminate]. pose proof (noblank_pr_blank (at0 :: bc) (x7d :: r) Kc eq_refl Hn). discriminate. }
     subst bc. cbn [pr_blank] in *.
     cbn [chain] in Hc. destruct Hc as [Hq Hc]. pose proof (set_bl_nil_m _ _ Hq) as Hq0. cbn beta iota in Hq0.
-    destruct (chain_cmapl (([], k0, b10, b20, v0, b30, s0) :: es) (x7d :: r)) as [E Wl]; [discriminate|reflexivity|cbn [chain]; split; [exact Hq0|exact Hc]|reflexivity|].
+    destruct (chain_cmapl (([], k0, b10, b20, v0, b30, s0) :: es) (x7d :: r)) as [E [Wl _]]; [discriminate|reflexivity|reflexivity|cbn [chain]; split; [exact Hq0|exact Hc]|reflexivity|].
     cbn [prl fold_right pr_mel pr_blank to_cmapl pr_cmapl] in E. cbn [prl fold_right pr_mel].
     exists (CCMap bl0 (to_cmapl ((bl0, k0, b10, b20, v0, b30, s0) :: es))). unfold constP.
-    cbn [pr_const erase_const cok_const wf_const to_cmapl pr_cmapl]. change sym_cmap_open with (txt "{"). change (txt "}" ++ r) with (x7d :: r).
-    split; [f_equal; f_equal; exact E|]. split; [|split; [split; [|discriminate]|reflexivity]].
+    cbn [pr_const erase_const wf_const to_cmapl pr_cmapl]. change sym_cmap_open with (txt "{"). change (txt "}" ++ r) with (x7d :: r).
+    split; [f_equal; f_equal; exact E|]. split; [|split; [split; [split; [|discriminate]|reflexivity]|reflexivity]].
     + f_equal. clear. cbn [map erase_cmapl]. f_equal.
       induction es as [|[[[[[[? ?] ?] ?] ?] ?] ?] es IH]; cbn [map to_cmapl erase_cmapl]; [reflexivity|]. now rewrite IH.
-    + intros Hok. cbn [to_cmapl] in Wl. rewrite (Wl Hok). destruct Hq as [[[_ Hnn] _] [Kl _]]. rewrite (blank_ok_nonnil _ _ Kl Hnn). reflexivity.
+    + intros _. cbn [to_cmapl] in Wl. rewrite Wl. destruct Hq as [[[[_ Hnn] _] _] [Kl _]]. rewrite (blank_ok_nonnil _ _ Kl Hnn). reflexivity.
 Qed.
 
 End Elems.
@@ -282,30 +269,43 @@ Proof. intros H. apply hd_sat_is. exact H. Qed.
 Theorem const_inv : forall d i r v, p_const_value lf d i = POk r v -> exists c, i = pr_const c r /\ erase_const c = v /\ constP c r.
 Proof.
   induction d as [|d IH]; intros i r v H; [discriminate|]. rewrite p_cv_eq in H.
-  apply alt_cons_inv in H. destruct H as [H|[_ H]]; [|apply alt_cons_inv in H; destruct H as [H|[_ H]];
-    [|apply alt_cons_inv in H; destruct H as [H|[_ H]]; [|apply alt_cons_inv in H; destruct H as [H|[_ H]];
+  apply alt_cons_inv in H. destruct H as [H|[_ H]]; [|apply alt_cons_inv in H; destruct H as [H|[Htrue H]];
+    [|apply alt_cons_inv in H; destruct H as [H|[Hfalse H]]; [|apply alt_cons_inv in H; destruct H as [H|[_ H]];
     [|apply alt_cons_inv in H; destruct H as [H|[Hdbl H]]; [|apply alt_cons_inv in H; destruct H as [H|[_ H]];
     [|apply alt_cons_inv in H; destruct H as [H|[_ H]]; [|apply alt_one_inv in H]]]]]]].
   - (* literal *)
     unfold cv_str in H. apply pmap_ok in H. destruct H as [s [H ->]]. destruct (literal_inv _ _ _ _ H) as [l [-> [<- Wl]]].
-    exists (CCLit l). unfold constP. cbn [pr_const erase_const cok_const wf_const cont_ok]. repeat split; auto. unfold pr_lit. discriminate.
+    exists (CCLit l). unfold constP. cbn [pr_const erase_const wf_const cont_ok]. repeat split; auto; [unfold pr_lit; discriminate|].
+    destruct l as [[|] body]; reflexivity.
   - unfold cv_true in H. binv H. inversion H; subst. destruct (keyword_inv _ _ _ _ E) as [-> Hk].
-    exists (CCBool true). unfold constP. cbn [pr_const erase_const cok_const wf_const cont_ok]. repeat split; auto; [discriminate|].
+    exists (CCBool true). unfold constP. cbn [pr_const erase_const wf_const cont_ok]. repeat split; auto; [discriminate|].
     now rewrite (nid_wordch _ (kwend_nid _ Hk)).
   - unfold cv_false in H. binv H. inversion H; subst. destruct (keyword_inv _ _ _ _ E) as [-> Hk].
-    exists (CCBool false). unfold constP. cbn [pr_const erase_const cok_const wf_const cont_ok]. repeat split; auto; [discriminate|].
+    exists (CCBool false). unfold constP. cbn [pr_const erase_const wf_const cont_ok]. repeat split; auto; [discriminate|].
     now rewrite (nid_wordch _ (kwend_nid _ Hk)).
   - unfold cv_path in H. apply pmap_ok in H. destruct H as [l [H ->]]. destruct (path_inv _ _ _ _ H) as [p [-> [<- [Wp [_ Hnr]]]]].
-    exists (CCPath p). unfold constP. cbn [pr_const erase_const cok_const wf_const cont_ok]. repeat split; auto.
-    + intros Hh. now rewrite Wp, Hh.
+    exists (CCPath p). unfold constP. cbn [pr_const erase_const wf_const cont_ok]. repeat split; auto.
+    + intros Ha. rewrite Wp. cbn [andb]. apply negb_true_iff.
+      destruct (bytes_in (cp_head p) [txt "true"; txt "false"]) eqn:Eb; [|reflexivity]. exfalso.
+      pose proof Wp as Wp'. unfold wf_path in Wp'. apply andb_prop in Wp'. destruct Wp' as [_ Wt].
+      assert (G : forall kw (q : parser ConstValue), (forall j, is_perr (q j) -> is_perr (p_keyword kw j)) -> bytes_eq (cp_head p) kw = true ->
+                  is_perr (q (pr_path p r)) -> False).
+      { intros kw q Hq Ek Hb. apply bytes_eq_eq in Ek. apply Hq in Hb. unfold pr_path in Hb. rewrite Ek in Hb.
+        exact (keyword_path_ascii kw (cp_tail p) r Wt Ha Hnr Hb). }
+      cbn [bytes_in] in Eb. apply orb_prop in Eb. destruct Eb as [Eb|Eb].
+      * apply (G kw_true cv_true); auto. intros j. unfold cv_true. destruct (p_keyword kw_true j); cbn; auto.
+      * apply orb_prop in Eb. destruct Eb as [Eb|Eb]; [|discriminate].
+        apply (G kw_false cv_false); auto. intros j. unfold cv_false. destruct (p_keyword kw_false j); cbn; auto.
     + unfold pr_path. unfold wf_path in Wp. apply andb_prop in Wp. destruct Wp as [Wh _].
       destruct (cp_head p); [discriminate Wh|cbn [app]; discriminate].
     + now rewrite (nid_wordch _ Hnr).
+    + unfold pr_path. unfold wf_path in Wp. apply andb_prop in Wp. destruct Wp as [Wh _]. now apply ident_ascii.
   - unfold cv_dbl in H. apply pmap_ok in H. destruct H as [s [H ->]]. destruct (dbl_inv _ _ _ _ H) as [dd [-> [<- [Wd Sd]]]].
-    exists (CCDbl dd). unfold constP. cbn [pr_const erase_const cok_const wf_const cont_ok]. repeat split; auto.
-    pose proof (len_const (CCDbl dd) r Wd) as L. cbn [pr_const] in L. intros E. rewrite E in L. cbn in L. lia.
+    exists (CCDbl dd). unfold constP. cbn [pr_const erase_const wf_const cont_ok]. repeat split; auto.
+    + pose proof (len_const (CCDbl dd) r Wd) as L. cbn [pr_const] in L. intros E. rewrite E in L. cbn in L. lia.
+    + apply dbl_head; auto using digit_ascii.
   - unfold cv_int in H. apply pmap_ok in H. destruct H as [z [H ->]]. destruct (int_inv _ _ _ _ H) as [ci [-> [<- [Wi [_ Si]]]]].
-    exists (CCInt ci). unfold constP. cbn [pr_const erase_const cok_const wf_const cont_ok]. repeat split; auto.
+    exists (CCInt ci). unfold constP. cbn [pr_const erase_const wf_const cont_ok]. repeat split; auto; [| |apply int_head; auto using digit_ascii].
     + pose proof (len_const (CCInt ci) r Wi) as L. cbn [pr_const] in L. intros E. rewrite E in L. cbn in L. lia.
     + rewrite Si. cbn [andb]. destruct (int_not_double ci r) eqn:En; [reflexivity|]. exfalso.
       unfold cv_dbl in Hdbl. apply (int_dbl_nperr ci r Wi Si En). unfold pmap in Hdbl.
